@@ -1,0 +1,5 @@
+//go:build !verif
+
+package syzgydb
+
+func verifStep(db *SpanFile, name string, off, n uint64) {}
